@@ -2,12 +2,13 @@
 // reference-free jump/isentropic invariants on the library's own outputs; cp_normal against the conjugate-normal
 // closed forms plus reference-free quadrature / proportionality / log monitors, over data-vector histories.
 #include "common.hpp"
+#include <cerrno>
 #include <quadmath.h>
 using namespace vh;
 using namespace MASA;
 typedef __float128 Q;
 
-static const char* PROP = "C08";
+static std::string PROP = "C08";   // --prop C09: the same monitor reporting for the accuracy property
 static std::set<std::string> g_emitted;
 static std::map<std::string, long> g_vc;
 static void viol_once(const std::string& key, const std::string& msg, const std::string& det) {
@@ -64,7 +65,11 @@ static void run_sod(Rng& rng, long ncases) {
     int gk = rng.below(8);
     S G = (gk < 3) ? (S)rng.uni(1.02L, 1.2L) : (gk == 3) ? (S)rng.uni(3.0L, 12.0L) : (S)rng.uni(1.05L, 3.0L);
     masa_set_param<S>("Gamma", G);
-    masa_set_param<S>("mu", (G - 1) / (G + 1));   // the property speaks of the solution for the current Gamma: mu kept consistent
+    masa_set_param<S>("mu", (G - 1) / (G + 1));
+    // histories: the coverage-only one-argument evaluator of this class (a bisection with its own accuracy / iteration cap) before one case in four;
+    // errno as an unrelated libm call may have left it
+    if (rng.below(4) == 0) { CAP.begin(); (void)masa_eval_source_t<S>((S)rng.uni(-1.0L, 1.0L)); CAP.end(); LOG.count("sod_cases_after_the_one_argument_stub", 1); }
+    { static const int EN[] = {0, EDOM, ERANGE, 0}; errno = EN[rng.below(4)]; }   // the property speaks of the solution for the current Gamma: mu kept consistent
     Riemann r = solve((Q)G);
     LOG.count("sod_gammas", 1);
     // times over five decades (the solution is self-similar: only x/t matters), one case in four
@@ -94,6 +99,7 @@ static void run_sod(Rng& rng, long ncases) {
       Q rho, vel; int region;
       if (!sample(r, xi2, rho, vel, region)) { LOG.count("sod_skipped_near_front", 1); continue; }
       set_ctx("sod:" + P, "sod_1d Gamma=" + jnum((long double)G) + " x=" + jnum((long double)x) + " t=" + jnum((long double)t));
+      if (rng.below(8) == 0) errno = rng.coin() ? EDOM : ERANGE;
       CAP.begin();
       S lr = masa_eval_source_rho<S>(x, t), lmom = masa_eval_source_rho_u<S>(x, t);
       std::string out = CAP.end();
@@ -177,16 +183,19 @@ static void run_cp(Rng& rng, long ncases) {
     std::vector<S> data;
     int resets = 1 + rng.below(3);
     for (int k = 0; k < resets; k++) {
+      // lengths 1..50 mostly; one time in five a long vector (51..5000), often just around a power of two or with an odd length ("all data vectors")
+      static const int LONGN[] = {64, 65, 127, 128, 129, 130, 255, 256, 257, 511, 513, 1000, 1001, 1023, 1025, 4097, 4099, 5000};
       int n = 1 + rng.below(50);
+      if (rng.below(5) == 0) n = rng.coin() ? LONGN[rng.below(18)] : 51 + rng.below(4950);
       data.assign((size_t)n, S(0));
       for (auto& d : data) d = (S)rng.uni(-3.0L, 3.0L);
       masa_set_vec<S>("vec_data", data);
       nhist++;
       if (k + 1 < resets && rng.coin()) { CAP.begin(); (void)masa_eval_posterior<S>((S)0.1); CAP.end(); }   // evaluations in between
     }
-    Q n = (Q)data.size(), xbar = 0;
-    for (auto& d : data) xbar += (Q)d;
-    xbar /= n;
+    Q n = (Q)data.size(), xbar = 0, absmean = 0;
+    for (auto& d : data) { xbar += (Q)d; absmean += fabsq((Q)d); }
+    xbar /= n; absmean /= n;
     Q s2 = (Q)sg * (Q)sg, sd2 = (Q)sd * (Q)sd;
     Q vp = 1 / (1 / s2 + n / sd2), mp = vp * ((Q)m / s2 + n * xbar / sd2);
     LOG.count("cp_parameter_sets", 1);
@@ -210,7 +219,7 @@ static void run_cp(Rng& rng, long ncases) {
       set_ctx("cp:" + P, "cp_normal " + hist);
       CAP.begin();
       switch (order[oi]) {
-        case 0: cmp("posterior_mean", (long double)masa_eval_posterior_mean<S>(), mp, fabsq(mp) + sqrtq(vp), hist); break;
+        case 0: cmp("posterior_mean", (long double)masa_eval_posterior_mean<S>(), mp, fabsq(mp) + sqrtq(vp) + absmean, hist); break;   // a mean is conditioned by the mean magnitude of its terms
         case 1: cmp("posterior_variance", (long double)masa_eval_posterior_variance<S>(), vp, vp, hist); break;
         case 2:
           for (int k = 0; k < 6; k++) {
@@ -298,6 +307,7 @@ static void run_cp(Rng& rng, long ncases) {
 
 int main(int argc, char** argv) {
   LOG.open(getarg(argc, argv, "--out"));
+  PROP = getarg(argc, argv, "--prop", "C08");
   CAP.install();
   install_crash_handlers();
   uint64_t seed = strtoull(getarg(argc, argv, "--seed", "1").c_str(), 0, 10);
